@@ -223,6 +223,10 @@ func cmdCheck(prop, tier string) int {
 				coversRun++
 				if o.ok() {
 					coversOK++
+				} else if o.Result.Status == "unsat" && o.Kind == "cover:after-call" && (o.Before == nil || o.Before.Result.Status != "sat") {
+					// the call site is unreachable under the contract already before the call: dead code, not vacuity
+				} else if o.Result.Status == "unsat" && o.Kind == "cover:before-call" {
+					// dead code under the contract
 				} else if o.Result.Status == "unsat" {
 					engineBad = append(engineBad, fmt.Sprintf("vacuity: %s is unsatisfiable (the assumptions collected up to %s contradict each other)", o.Name, o.Pos))
 				}
